@@ -1,6 +1,7 @@
 """C15 Wire messages round-trip and have a unique encoding (spec/WireMsg.tla)."""
 import json
 import os
+import re
 import vlib
 
 ENGINE = "c15_messages"
@@ -39,7 +40,7 @@ def write_cfg(ctx, name, limits, tail, max_kinds=2, nonzero=False, partial=False
     return path
 
 
-SIZE_TAIL = "INIT SizeInit\nNEXT SizeNext\nINVARIANTS SizeOK EmitSize"
+SIZE_TAIL = "INIT SizeInit\nNEXT SizeNext\nINVARIANTS WorstCaseFits SizeOK EmitSize"
 FACTS_TAIL = "INIT FactsInit\nNEXT SizeNext\nINVARIANTS InventoryLimitIsMaximal PingLimitIsExact PongLimitIsExact"
 ENC_TAIL = "INIT EncInit\nNEXT EncNext\nINVARIANTS DecoderAgrees UniqueEncoding EmitEnc"
 DEV_TAIL = "INIT EncInit\nNEXT EncNext\nINVARIANTS UniqueEncoding"
@@ -69,11 +70,15 @@ def run(ctx):
     cfg = write_cfg(ctx, "size.cfg", limits, SIZE_TAIL, max_kinds=5 if thorough else 2)
     res = ctx.tlc("MCWireMsg", cfg, workers=2, timeout=3000 if thorough else 600, coverage=True,
                   label="exhaustive: message assembly machine over the code's limits; invariant SizeOK")
+    m = re.search(r"The invariant of (\w+) is equal to FALSE", res.out)   # constant-level invariant: TLC words it differently
+    if m and not res.violated:
+        res.violated = m.group(1)
+        res.error_trace = [l for l in res.out.splitlines() if "invariant" in l.lower()][:5] + [f"limits: {json.dumps(limits)}"]
     ctx.tlc_ok(res, "MCWireMsg/size")
-    if res.violated and res.violated != "SizeOK":
+    if res.violated and res.violated not in ("SizeOK", "WorstCaseFits"):
         raise vlib.ToolError(f"size instance: unexpected violation {res.violated}\n{res.out[-2000:]}")
-    if res.violated == "SizeOK":
-        ctx.violation("model:SizeOK", "with the limits the code has, a message that can be assembled does not fit the 64 KiB frame: "
+    if res.violated:
+        ctx.violation(f"model:{res.violated}", "with the limits the code has, a message that can be assembled does not fit the 64 KiB frame: "
                       + " ".join(l.strip() for l in res.error_trace[-14:])[:900], {"limits": limits, "tlc_counterexample": res.error_trace[-60:]})
         return ctx.finish(rule=RULE)
     ctx.require_coverage(res, ["SPushInventory", "SPushRef", "SPushAddress", "SSetScalar"])
